@@ -28,8 +28,11 @@ import (
 //	F7  assignment to a builtin function name: the compile step is run; the
 //	    panic is accepted only with predicate + message + site.
 //	F8  for-in with more than two loop variables: same treatment.
-//	F9  >= GlobalsSize global symbols through Script.Compile: same treatment.
-var openFindings = map[string]bool{"F5": true, "F7": true, "F8": true, "F9": true}
+//
+// F9 (>= GlobalsSize global symbols made Script.Compile panic) was repaired in
+// /repo by a7b7e37; its switch is gone and its reproducers are regression
+// replays under replays/C04/fixed/.
+var openFindings = map[string]bool{"F5": true, "F7": true, "F8": true}
 
 type knownSig struct {
 	id    string
@@ -51,11 +54,6 @@ var knownSigs = []knownSig{
 		site: "github.com/d5/tengo/v2.(*Compiler).compileForInStmt",
 		pred: func(f *astFacts) bool { return f.forInNilVar },
 		what: "for-in with more than two loop variables (`for a, b, c in x {}`) parses to a ForInStmt with nil Key/Value; Compiler.compileForInStmt dereferences nil"},
-	{id: "F9", entry: "script",
-		msg:  regexp.MustCompile(`^runtime error: slice bounds out of range \[:\d+\] with capacity \d+$`),
-		site: "github.com/d5/tengo/v2.(*Script).Compile",
-		pred: func(f *astFacts) bool { return f.globalsAtLimit },
-		what: "a script with >= GlobalsSize (1024) global symbols panics in Script.Compile (globals[:MaxSymbols()+1]) instead of returning an error"},
 }
 
 const f5What = "break/continue inside a function literal inside a loop body (`for { f := func() { break } }`) is attached to the outer function's loop: Compiler panics (index out of range / invalid jump position) or patches the wrong instruction"
@@ -118,9 +116,6 @@ type astFacts struct {
 	assignToBuiltinName bool
 	// F8: ForInStmt with nil Key or Value (more than two loop variables).
 	forInNilVar bool
-	// F9: set by the oracle from the compiler's own symbol table after a
-	// successful bare compilation: MaxSymbols()+1 > GlobalsSize.
-	globalsAtLimit bool
 }
 
 type walkCtx struct {
